@@ -1,0 +1,9 @@
+//go:build verif
+
+package textfield
+
+// VerifC17State returns the cursor (a grapheme index into Value) and the
+// cached grapheme count of the field.
+func (tf *TextField) VerifC17State() (cursor uint, n uint) {
+	return tf.cursor, tf.n
+}
